@@ -125,10 +125,12 @@ structure SfGauge where
   deriving Repr, DecidableEq
 
 /-- outcome of `TransferFundsForSwapFeeDistribution` (liquidity pool.go:671-770): an error, or the coins that arrived in
-the rewards module account (same denomination as the gauge's deposit: a change of `SwapFeeDistrDenom` is not modelled) -/
+the rewards module account, in the denomination of the gauge's deposit (`ok`) or, after a change of `SwapFeeDistrDenom`, in
+another one (`moved`; the ledgers are per denomination: the coins arrive in the other denomination's ledger, `BOp.sfArrive`) -/
 inductive Xfer where
   | err
   | ok (amount : Nat)
+  | moved (amount : Nat)      -- the coins arrived in ANOTHER denomination (`SwapFeeDistrDenom` was changed)
   deriving Repr, DecidableEq
 
 /-- the distribution half of the swap-fee branch (gauge.go:264-281): `none` = `continue` (distribution error or the
@@ -155,6 +157,9 @@ def sfTrigger (g : SfGauge) (d : DistData) (x : Xfer) : Except String (SfGauge Ã
     match x with
     | .err => .ok (g1, sends, 0)
     | .ok amt => .ok ({ g1 with deposit := g1.deposit + amt, triggered := g1.triggered + 1 }, sends, amt)
+    -- gauge.go:293-297 "in case of swap fee distribution denom change in params": `gauge.DepositAmount = receivedAmount` REPLACES
+    -- the deposit: in THIS denomination the gauge owes nothing any more (the undistributed remainder stays in the account, unowed)
+    | .moved _ => .ok ({ g1 with deposit := 0, triggered := g1.triggered + 1 }, sends, 0)
 
 /-- the same pass as the code had it BEFORE commit b0fa4d4 (finding D44): a failed transfer `continue`d before `SetGauge`,
 so the record kept the `DepositAmount` that had just been paid out.  Only used by `sf_gauge_leak_before_fix_counterexample`. -/
@@ -372,6 +377,7 @@ inductive BOp where
   | extPay (j : Nat) (pays : List Int)                  -- programme `j` pays its day's rewards
   | extDeactivate (j : Nat)                             -- duration over
   | sfTrigger (i : Nat) (d : DistData) (x : Xfer)       -- swap-fee gauge `i` reached by `InitateGaugesForDuration`
+  | sfArrive (amount : Nat) (triggered : Nat)           -- a swap-fee gauge of another denomination moves here with the received coins
   deriving Repr
 
 def stepB (l : Ledger) : BOp â†’ Except String Ledger
@@ -405,6 +411,8 @@ def stepB (l : Ledger) : BOp â†’ Except String Ledger
       | .ok (g', sends, recv) =>
         let (b, _) := sendAll l.bal sends
         .ok { l with bal := b + recv, sfs := setAt l.sfs i g' }
+  | .sfArrive amt t =>
+    .ok { l with bal := l.bal + amt, sfs := l.sfs ++ [{ deposit := amt, distributed := 0, triggered := t }] }
 
 def runB (l : Ledger) : List BOp â†’ Except String Ledger
   | [] => .ok l
